@@ -133,7 +133,7 @@ type vfC02MuxRun struct {
 	// a glitch of the underlying connection was armed: the session may end (every error of the connection is
 	// fatal for the muxer) or go on untouched; errors are allowed from here on, garbling never
 	loose atomic.Bool
-	log       []any
+	log   []any
 }
 
 func (r *vfC02MuxRun) note(m map[string]any) { r.mu.Lock(); r.log = append(r.log, m); r.mu.Unlock() }
